@@ -173,7 +173,9 @@ func findSentinels(p *Prog, pkg string) []sentinelRes {
 			}
 		}
 	}
-	sort.Slice(out, func(i, j int) bool { return fnKey(out[i].Fn)+fmt.Sprint(out[i].Idx) < fnKey(out[j].Fn)+fmt.Sprint(out[j].Idx) })
+	sort.Slice(out, func(i, j int) bool {
+		return fnKey(out[i].Fn)+fmt.Sprint(out[i].Idx) < fnKey(out[j].Fn)+fmt.Sprint(out[j].Idx)
+	})
 	return out
 }
 
